@@ -53,7 +53,7 @@ CLAIMS = {
                  "the attribute names written by save and read by the loaders, "
                  "definite assignment of constructor activations under the "
                  "loaders' call-site constants, one edge enumeration for link "
-                 "count and graph, mirrored stores for undirected link attributes. Also a freshness typestate: the vertex attribute carrying node weights into a file is attached by save() or re-attached by every graph rebuild; attribute names are resolved through module/class constants and constant tuples (a reader may accept several); edge arrays built from an edge list are made (E, 2) for E = 0 before their columns are selected (S7)."),
+                 "count and graph, mirrored stores for undirected link attributes. Also a freshness typestate: the vertex attribute carrying node weights into a file is attached by save() or re-attached by every graph rebuild; attribute names are resolved through module/class constants and constant tuples (a reader may accept several); edge arrays built from an edge list are made (E, 2) for E = 0 before their columns are selected (S7). S8: the vertex attribute name is a valid GML key or the loaders also accept its GML spelling."),
         "note": ("Does NOT decide what igraph preserves per file format, "
                  "degenerate edge lists or numeric equality of weights."),
         "technique": "who-may-write, def-use and definite-assignment analysis over Python ast effect trees",
@@ -242,7 +242,7 @@ CLAIMS = {
                  "call site; every dereference in the six C functions is inside "
                  "its buffer (affine pointer analysis with induction variables over "
                  "the clang AST, polynomial bounds); data-dependent bin indices are "
-                 "clamped on both sides; integer product chains cannot overflow; no stack allocation (alloca) grows with an extent of the data. Also: an extent taken from object state is re-established (or guarded by a shape test) whenever the size cell can be rewritten without the buffer cells."),
+                 "clamped on both sides; integer product chains cannot overflow; no stack allocation (alloca) grows with an extent of the data; an array parameter whose raw data pointer is taken is `not None` or every call site passes a freshly made array (B10). Also: an extent taken from object state is re-established (or guarded by a shape test) whenever the size cell can be rewritten without the buffer cells."),
         "note": ("LP64; extents >= 0; numpy/igraph internals trusted; the Cython "
                  "compiler's boundscheck is trusted for typed buffers; unsupported C "
                  "constructs give ANALYSIS-ERROR."),
